@@ -32,5 +32,5 @@ for m in repo.modules.values():
 print('normalised top-level statements',nfull,'kept verbatim',kept)
 r=subprocess.run(['/venv/bin/python','-m','pytest','-q','-p','no:cacheprovider','--timeout=900','-q','--tb=line'],cwd=d,env=dict(os.environ,PYTHONPATH=d),capture_output=True,text=True)
 print('RC', r.returncode)
-print([l for l in r.stdout.splitlines() if re.search(r'passed|failed|rror', l)][-6:])
+print(r.stdout[-600:])
 subprocess.run(['git','-C','/repo','worktree','remove','--force',d])
